@@ -25,16 +25,17 @@ REGIONS = {
     # name: (file, first line, last line, checks)
     'list':        (INC + 'mock.hpp', 1305, 1606, ['C01', 'C14', 'C02']),
     'seqhandler':  (INC + 'mock.hpp', 1741, 1907, ['C05', 'C03', 'C06']),
-    'matcherlist': (INC + 'mock.hpp', 1981, 2219, ['C04', 'C01', 'C15']),
-    'trace':       (INC + 'mock.hpp', 2220, 2381, ['C17']),
+    'matcherlist': (INC + 'mock.hpp', 1981, 2219, ['C04', 'C01', 'C15', 'C10']),
+    'trace':       (INC + 'mock.hpp', 2220, 2300, ['C17']),
+    'find':        (INC + 'mock.hpp', 2301, 2381, ['C02', 'C15', 'C01']),
     'clauses':     (INC + 'mock.hpp', 2382, 2541, ['C08', 'C09']),
     'times':       (INC + 'mock.hpp', 2822, 2926, ['C03', 'C07']),
-    'callmatcher': (INC + 'mock.hpp', 2941, 3250, ['C01', 'C04', 'C05', 'C08', 'C15', 'C16']),
-    'mockfunc':    (INC + 'mock.hpp', 3251, 3417, ['C01', 'C02', 'C03', 'C04', 'C14']),
+    'callmatcher': (INC + 'mock.hpp', 2941, 3250, ['C01', 'C04', 'C05', 'C08', 'C15', 'C16', 'C12']),
+    'mockfunc':    (INC + 'mock.hpp', 3251, 3417, ['C01', 'C02', 'C03', 'C04', 'C14', 'C17', 'C19']),
     'sequence':    (INC + 'sequence.hpp', 30, 412, ['C05', 'C06', 'C02', 'C14']),
-    'lifetime':    (INC + 'lifetime.hpp', 25, 210, ['C13', 'C14', 'C05']),
+    'lifetime':    (INC + 'lifetime.hpp', 25, 210, ['C13', 'C14', 'C05', 'C06', 'C12']),
     'print':       (INC + 'mock.hpp', 880, 1300, ['C18', 'C15']),
-    'compare':     (INC + 'matcher/compare.hpp', 20, 163, ['C10']),
+    'compare':     (INC + 'matcher/compare.hpp', 20, 163, ['C10', 'C04']),
     'setpred':     (INC + 'matcher/set_predicate.hpp', 20, 161, ['C10']),
     'deref':       (INC + 'matcher/deref.hpp', 20, 83, ['C10']),
     'not':         (INC + 'matcher/not.hpp', 20, 82, ['C10']),
